@@ -1,7 +1,7 @@
 (* C02 -- clean restart preserves everything; index files are rebuildable caches.
    Property theorems only; proofs live in proofs/Upd.v, Restart1.v .. Restart5.v. *)
 From Coq Require Import NArith ZArith List Bool String.
-From GB Require Import Consts Words Hash Compress Bucket BucketOpen CheckL2 RefMap Refine Restart2 Restart4 Restart5.
+From GB Require Import Consts Words Hash Compress Bucket BucketOpen CheckL2 RefMap Refine Restart2 Restart4 Restart5 GcX6.
 Import ListNotations.
 Open Scope N_scope.
 
@@ -35,6 +35,20 @@ Proof.
   exact (restart_history lc K Hinj Hcap Hcv ops bucket0 [] (rinv2_init lc K Hcap Hcv) Hv).
 Qed.
 Print Assumptions C02_history.
+
+(* (2b) ... and with GC passes (any range, either merge flag) anywhere in the history as well: a restart after any number of
+   passes still preserves every live entry, because a pass re-establishes the whole invariant (C03_gc_reestablishes_restart_invariant).
+   [ready]: each GC request meets a state with its range below the head file, no record past DataFileMax and some hint
+   file written since the store was created. *)
+Theorem C02_history_with_gc : forall (lc : l2cfg) (K : list bytes),
+  (forall k1 k2, In k1 K -> In k2 K -> forced_hash (l_forced lc) k1 = forced_hash (l_forced lc) k2 -> k1 = k2) ->
+  0 < c_splitcap (l_cfg lc) -> c_checkvhash (l_cfg lc) = false ->
+  forall ops, Forall (op_valid3 K) ops -> ready lc bucket0 ops -> spec_ok3 lc K [] ops (model_run lc bucket0 ops).
+Proof.
+  intros lc K Hinj Hcap Hcv ops Hv Hr.
+  exact (full_history lc K Hinj Hcap Hcv ops bucket0 [] (rinv2_init lc K Hcap Hcv) (nlz_init lc) Hv Hr).
+Qed.
+Print Assumptions C02_history_with_gc.
 
 (* the view really pins live keys down: a key that is live before a restart reads the same afterwards *)
 Theorem C02_view_live : forall K m m' k e, view K m m' -> In k K -> s_get m k = Some e -> live e = true -> s_get m' k = Some e.
